@@ -41,6 +41,7 @@ for mp in sorted(glob.glob(f'{V}/seeded/*/meta.json'), key=key):
     out.append(f"| {sid} | {m.get('property','')} | {by[-1] if by else '**missed**'} | {rule.group(1) if rule else ''} | {txt[:150]} |")
 out.append('')
 out.append(f"Totals: {n} kept seeds, {caught} detected, {len(missed)} recorded as missed ({', '.join(missed) or 'none'}).\n")
+out.append(part('benign'))
 out.append(part('limits'))
 doc = open(f'{V}/DESIGN.md').read()
 i = doc.index('## 8. As built')
